@@ -235,7 +235,7 @@ fn twin(prop: &str, i: u64, rng: &mut Rng, out: &mut Outcome, dir: &Path) {
 
 pub fn run(ctx: &Ctx) -> i32 {
     let dir = ctx.scratch_dir("c11");
-    let n = ctx.budget(80, 3000) as u64;
+    let n = ctx.budget(400, 6000) as u64;
     let out = crate::par::run(ctx, n, std::time::Duration::from_secs(ctx.tier.pick(90, 1200)), |i, rng, out| twin(&ctx.prop, i, rng, out, &dir));
     let _ = std::fs::remove_dir_all(&dir);
     let floors = vec![
